@@ -4,17 +4,20 @@ Shared by C01 (oracle = Coq interpreter), C04 and C16.
 
 AST = nested python tuples mirroring CapyCore:
   types  ("i", name) | ("bool",) | ("void",) | ("arr", n, t) | ("struct", id, (t, ...)) | ("tvar", n)
+         | ("enum", id, (payload t, ...)) | ("opt", t) | ("err", e, t)
   exprs  ("int", ty, z) ("bool", b) ("unit",) ("cp", n) ("var", x) ("bin", op, a, b) ("cmp", op, a, b)
          ("un", op, a) ("land", a, b) ("lor", a, b) ("cast", ty, a) ("if", c, a, b) ("while", l, c, body)
          ("loop", l, body) ("block", l|None, ty, (stmts...), tail) ("break", l, v) ("continue", l)
          ("return", v) ("call", f, (targs...), (cargs...), (args...)) ("arr", ty, (es...)) ("index", a, i)
          ("struct", ty, (es...)) ("field", a, k) ("let", x, ty, mut, e) ("assign", lhs, rhs) ("print", a)
+         ("defer", e) ("inject", ty, k, e) ("switch", ty, e, x, (arms...), dflt|None) ("isvar", e, k)
+         ("unwrap", e, k) ("try", e)
   cvals  ("clit", ty, z) | ("cref", n)
   program {"funs": [{"tparams": n, "cparams": [ty], "params": [(x, ty)], "ret": ty, "body": expr}], "main": k}
 
 Generator switches (default False = stay away from defects of the unchanged compiler that other
 properties already cover, so that C01 is quiet unless something new breaks):
-  cast_signed_to_wider_unsigned   u16.(i8 -1) = 255 (C08)
+  cast_signed_to_wider_unsigned   u16.(i8 -1) = 255 (C08) -- fixed in /repo db0172d, so this one is ON by default now
   div128                          128-bit division / remainder is rejected by the backend (C01-1)
   int128_in_signatures            a function with an i128 / u128 parameter or result panics the backend (C01-2)
   dependent_comptime_param_types  `(comptime T: type, comptime k: T)`: k of a later instantiation is checked against the T of
@@ -37,9 +40,10 @@ USIZE = ("i", "usize")
 BOOL = ("bool",)
 VOID = ("void",)
 
-DEFAULT_OPTS = {"cast_signed_to_wider_unsigned": False, "div128": False, "int128_in_signatures": False,
+DEFAULT_OPTS = {"cast_signed_to_wider_unsigned": True, "div128": False, "int128_in_signatures": False,
                 "aggregate_assign_reads_target": False, "recursive_generics": False,
-                "dependent_comptime_param_types": False}
+                "dependent_comptime_param_types": False,
+                "sum_types": True, "defers": True}
 
 
 def T(name):
@@ -53,8 +57,21 @@ def is_int(t):
 def int_range(t):
     if t[0] == "tvar":
         return (0, 100)
+    if t[0] == "dist":
+        t = ("i", t[2])
     sg, w = INTS[t[1]]
     return (-(1 << (w - 1)), (1 << (w - 1)) - 1) if sg else (0, (1 << w) - 1)
+
+
+def variants(t):
+    """payload types of a sum type (enum / optional / error union), else None."""
+    if t[0] == "enum":
+        return list(t[2])
+    if t[0] == "opt":
+        return [VOID, t[1]]
+    if t[0] == "err":
+        return [t[1], t[2]]
+    return None
 
 
 def norm(t, z):
@@ -74,6 +91,8 @@ def ser_ty(t, out):
     k = t[0]
     if k == "i":
         out.append(t[1])
+    elif k == "dist":
+        out.append(t[2])      # a distinct integer type has the semantics of its base type
     elif k in ("bool", "void"):
         out.append(k)
     elif k == "arr":
@@ -85,6 +104,17 @@ def ser_ty(t, out):
             ser_ty(f, out)
     elif k == "tvar":
         out += ["V", str(t[1])]
+    elif k == "enum":
+        out += ["E", str(t[1]), str(len(t[2]))]
+        for f in t[2]:
+            ser_ty(f, out)
+    elif k == "opt":
+        out.append("O")
+        ser_ty(t[1], out)
+    elif k == "err":
+        out.append("R")
+        ser_ty(t[1], out)
+        ser_ty(t[2], out)
     else:
         raise ValueError(t)
 
@@ -137,9 +167,30 @@ def ser_expr(e, out):
     elif k == "break":
         out += ["break", str(e[1])]
         ser_expr(e[2], out)
-    elif k in ("return", "print"):
+    elif k in ("return", "print", "defer", "try"):
         out.append(k)
         ser_expr(e[1], out)
+    elif k == "inject":
+        out.append("inject")
+        ser_ty(e[1], out)
+        out.append(str(e[2]))
+        ser_expr(e[3], out)
+    elif k == "switch":
+        out.append("switch")
+        ser_ty(e[1], out)
+        ser_expr(e[2], out)
+        out += [str(e[3]), str(len(e[4]))]
+        for a in e[4]:
+            ser_expr(a, out)
+        if e[5] is None:
+            out.append("0")
+        else:
+            out.append("1")
+            ser_expr(e[5], out)
+    elif k in ("isvar", "unwrap"):
+        out.append(k)
+        ser_expr(e[1], out)
+        out.append(str(e[2]))
     elif k == "call":
         out += ["call", str(e[1]), str(len(e[2]))]
         for t in e[2]:
@@ -212,12 +263,12 @@ def parse_outcome(line):
     return r
 
 
-def render_events(events):
-    """Text the program prints for the events (printers of PRELUDE)."""
+def render_events(events, core_print=False):
+    """Text the program prints for the events (printers of PRELUDE; core_print: through core.println)."""
     out = []
     for name, z in events:
         if name == "bool":
-            out.append("%d\n" % z)
+            out.append(("true\n" if z else "false\n") if core_print else "%d\n" % z)
         elif INTS[name][1] == 128:
             out.append("%032x\n" % (z & ((1 << 128) - 1)))
         else:
@@ -225,7 +276,7 @@ def render_events(events):
     return "".join(out)
 
 
-FAULT_TEXT = {0: "array index out of bounds"}
+FAULT_TEXT = {0: "array index out of bounds", 1: "unwrap"}
 
 # ------------------------------------------------------------------ pretty printer
 PRELUDE = """putchar :: (c: u8) -> i32 extern;
@@ -284,8 +335,12 @@ def parts(e):
         return [e[2]], list(e[3]) + [e[4]]
     if k == "break":
         return [], [e[2]]
-    if k in ("return", "print"):
+    if k in ("return", "print", "defer", "try", "isvar", "unwrap"):
         return [], [e[1]]
+    if k == "inject":
+        return [e[1]], [e[3]]
+    if k == "switch":
+        return [e[1]], [e[2]] + list(e[4]) + ([e[5]] if e[5] is not None else [])
     if k == "call":
         return list(e[2]) + [c[1] for c in e[3] if c[0] == "clit"], list(e[4])
     if k in ("arr", "struct"):
@@ -307,6 +362,17 @@ def collect_structs(prog):
             for f in t[2]:
                 ty(f)
             found.setdefault(t[1], t)
+        elif t[0] == "enum":
+            for f in t[2]:
+                ty(f)
+            found.setdefault(("enum", t[1]), t)
+        elif t[0] == "opt":
+            ty(t[1])
+        elif t[0] == "err":
+            ty(t[1])
+            ty(t[2])
+        elif t[0] == "dist":
+            found.setdefault(("dist", t[1]), t)
 
     def ex(e):
         ts, es = parts(e)
@@ -325,17 +391,31 @@ def collect_structs(prog):
 
 
 class Printer:
-    def __init__(self, prog, names=None, bare_literals=True, style=0):
+    def __init__(self, prog, names=None, bare_literals=True, style=0, core_print=False):
+        self.core_print = core_print
+        self.aliases = {}        # (file, type text) -> alias name, for switch arm patterns
+        self.direct_variants = False   # True: enum variant values are written directly into ?T / E!T (C01-5, C01-6)
+        self.inline_patterns = False   # True: write array types inline in switch arms (known finding C01-7)
+        self.local = None        # set of function indices printed into the main file (two-file mode)
+        self.cur_local = False
         self.prog = prog
         self.names = names or {}
         self.bare = bare_literals
         self.style = style
         self.tnames = {}       # per function: tvar index -> name
 
+    def q(self):
+        """prefix of names defined in the library file, seen from the function being printed"""
+        return "lib." if (self.local is not None and self.cur_local) else ""
+
     def fname(self, k):
         if k in self.names:
-            return self.names[k]
-        return "main" if k == self.prog["main"] else "f%d" % k
+            n = self.names[k]
+        else:
+            n = "main" if k == self.prog["main"] else "f%d" % k
+        if self.local is not None and self.cur_local and k not in self.local:
+            return "lib." + n
+        return n
 
     def ty(self, t):
         k = t[0]
@@ -346,10 +426,25 @@ class Printer:
         if k == "arr":
             return "[%d]%s" % (t[1], self.ty(t[2]))
         if k == "struct":
-            return "S%d" % t[1]
+            return "%sS%d" % (self.q(), t[1])
         if k == "tvar":
             return "T%d" % t[1]
+        if k == "enum":
+            return "%sE%d" % (self.q(), t[1])
+        if k == "dist":
+            return "%sD%d" % (self.q(), t[1])
+        if k == "opt":
+            return "?%s" % self.ty(t[1])
+        if k == "err":
+            return "%s!%s" % (self.ty(t[1]), self.ty(t[2]))
         raise ValueError(t)
+
+    def variant_name(self, st, k):
+        """How variant k of sum type st is named in #is_variant / #unwrap / switch arms."""
+        if st[0] == "enum":
+            return "%s.V%d" % (self.ty(st), k)
+        vs = variants(st)
+        return "nil" if vs[k] == VOID else self.ty(vs[k])
 
     def lit(self, t, z, bare):
         """Integer literal of type t: literals are non-negative tokens that must fit the type."""
@@ -363,12 +458,27 @@ class Printer:
                 body = "-%d - 1" % (-(z + 1))
             else:
                 body = "-%d" % -z
-        if bare and self.bare:
+        if bare and self.bare and t[0] != "dist":
             return "(%s)" % body if z < 0 else body
         return "%s.(%s)" % (self.ty(t), body)
 
+    def tail_has_inject(self, e):
+        k = e[0]
+        if k == "inject":
+            return True
+        if k == "block":
+            return self.tail_has_inject(e[4])
+        if k == "if":
+            return self.tail_has_inject(e[2]) or self.tail_has_inject(e[3])
+        if k == "switch":
+            return any(self.tail_has_inject(a) for a in e[4]) or (e[5] is not None and self.tail_has_inject(e[5]))
+        return False
+
     def expr(self, e, ind, scopes, bare=False):
         k = e[0]
+        if bare and k in ("if", "block", "switch") and self.tail_has_inject(e):
+            # implicit conversions into sum types are only relied upon directly at the typed position
+            bare = False
         P = lambda x, b=False: self.expr(x, ind, scopes, b)
         if k == "int":
             return self.lit(e[1], e[2], bare)
@@ -438,19 +548,87 @@ class Printer:
             t = self.print_ty.get(id(e))
             if t in ("p_i128", "p_u128"):
                 # 128-bit values cannot be passed to functions (known finding C01-2): print the two halves
-                return "{ pt_ := %s; p_128(u64.(pt_ >> 64), u64.(pt_)); }" % P(e[1])
+                return "{ pt_ := %s; %sp_128(u64.(pt_ >> 64), u64.(pt_)); }" % (P(e[1]), self.q())
+            if self.core_print and t:
+                return "core.println(%s)" % P(e[1])
+            if t and self.q():
+                t = self.q() + t
             return "%s(%s)" % (t, P(e[1])) if t else "p_ERR(%s)" % P(e[1])
+        if k == "raw":
+            return e[1]
+        if k == "defer":
+            d = e[1]
+            if d[0] == "block" and d[1] is None:
+                return "defer %s" % self.block_body(d, ind, scopes)
+            if d[0] in ("print", "call"):
+                return "defer %s" % P(d)
+            return "defer { %s; }" % P(d)
+        if k == "inject":
+            t, kk, a = e[1], e[2], e[3]
+            if t[0] == "enum":
+                inner = "%s.V%d" % (self.ty(t), kk)
+                if t[2][kk] != VOID:
+                    inner += ".(%s)" % P(a, a[0] != "inject")
+                if bare and (self.direct_variants or (kk + self.style) % 2 == 0):
+                    return inner
+                return "%s.(%s)" % (self.ty(t), inner)
+            # optionals / error unions: the payload is printed self-typed (implicit conversions of
+            # variant values into ?T / E!T are defect-prone: C01-5, C01-6)
+            inner = "nil" if variants(t)[kk] == VOID else P(a, self.direct_variants)
+            if bare:
+                return inner
+            return "%s.(%s)" % (self.ty(t), inner)
+        if k == "switch":
+            t, a, x, arms, dflt, st = e[1], e[2], e[3], e[4], e[5], e[6]
+            vs = variants(st)
+            pad = "    " * (ind + 1)
+            lines = []
+            for i, arm in enumerate(arms):
+                if st[0] == "enum":
+                    pat = ".V%d" % i
+                    if vs[i] != VOID:
+                        conv = ("let", x, vs[i], False, ("raw", "%s.(v%d)" % (self.ty(vs[i]), x)))
+                        if arm[0] == "block" and arm[1] is None:
+                            arm = ("block", None, arm[2], (conv,) + tuple(arm[3]), arm[4])
+                        else:
+                            arm = ("block", None, t, (conv,), arm)
+                else:
+                    pat = self.variant_name(st, i)
+                    if vs[i][0] == "arr" and not self.inline_patterns:
+                        # `[2]usize => ..` with the argument used panics the checker (C01-7): name the type
+                        key = (self.cur_local, pat)
+                        if key not in self.aliases:
+                            self.aliases[key] = "A%d" % (len(self.aliases) + 1)
+                        pat = self.aliases[key]
+                lines.append("%s%s => %s," % (pad, pat, self.braced(arm, ind + 1, scopes, bare)))
+            if dflt is not None:
+                lines.append("%s_ => %s," % (pad, self.braced(dflt, ind + 1, scopes, bare)))
+            order = list(range(len(arms)))
+            if self.style % 2 == 1:
+                order.reverse()
+            body = [lines[i] for i in order] + lines[len(arms):]
+            return "switch v%d in %s {\n%s\n%s}" % (x, P(a), "\n".join(body), "    " * ind)
+        if k == "isvar":
+            return "#is_variant(%s, %s)" % (P(e[1]), self.variant_name(e[3], e[2]))
+        if k == "unwrap":
+            st = e[3]
+            u = "#unwrap(%s, %s)" % (P(e[1]), self.variant_name(st, e[2]))
+            if st[0] == "enum":
+                return "%s.(%s)" % (self.ty(variants(st)[e[2]]), u)
+            return u
+        if k == "try":
+            return "%s.try" % self.postfix_base(e[1], ind, scopes)
         if k == "let":
             x, t, m, v = e[1:5]
             form = (x + self.style) % 3
-            if form == 0 and v[0] not in ("int",) and t[0] != "tvar":
+            if form == 0 and v[0] not in ("int", "inject", "switch", "raw") and t[0] not in ("tvar", "opt", "err", "enum"):
                 return "v%d :%s %s" % (x, "=" if m else ":", P(v))
             return "v%d : %s %s %s" % (x, self.ty(t), "=" if m else ":", P(v, True))
         raise ValueError(e)
 
     def postfix_base(self, e, ind, scopes):
         s = self.expr(e, ind, scopes)
-        if e[0] in ("var", "index", "field", "call"):
+        if e[0] in ("var", "index", "field", "call", "unwrap"):
             return s
         return "(%s)" % s
 
@@ -466,7 +644,7 @@ class Printer:
         for s in e[3]:
             txt = self.expr(s, ind + 1, scopes)
             lines.append(pad + txt)
-            blocky.append(s[0] in ("if", "while", "loop", "block"))
+            blocky.append(s[0] in ("if", "while", "loop", "block", "switch"))
         if e[4] != ("unit",):
             lines.append(pad + self.expr(e[4], ind + 1, scopes, bare))
         for i, b in enumerate(blocky):
@@ -478,22 +656,59 @@ class Printer:
             return "{}"
         return "{\n" + "\n".join(lines) + "\n" + "    " * ind + "}"
 
+    def decls(self):
+        out = []
+        decls = collect_structs(self.prog)
+        for sid, st in sorted((k, v) for k, v in decls.items() if not isinstance(k, tuple)):
+            out.append("S%d :: struct { %s };" % (sid, ", ".join("m%d: %s" % (i, self.ty(f)) for i, f in enumerate(st[2]))))
+        for (_, eid), et in sorted((k, v) for k, v in decls.items() if isinstance(k, tuple) and k[0] == "enum"):
+            out.append("E%d :: enum { %s };" % (eid, ", ".join(("V%d" % i) if f == VOID else "V%d: %s" % (i, self.ty(f))
+                                                                for i, f in enumerate(et[2]))))
+        for (_, did), dt in sorted((k, v) for k, v in decls.items() if isinstance(k, tuple) and k[0] == "dist"):
+            out.append("D%d :: distinct %s;" % (did, dt[2]))
+        return out
+
+    def fun_text(self, k):
+        f = self.prog["funs"][k]
+        ps = ["comptime T%d: type" % i for i in range(f["tparams"])]
+        ps += ["comptime c%d: %s" % (i, self.ty(t)) for i, t in enumerate(f["cparams"])]
+        ps += ["v%d: %s" % (x, self.ty(t)) for x, t in f["params"]]
+        ret = "" if f["ret"] == VOID else " -> %s" % self.ty(f["ret"])
+        body = f["body"]
+        if not (body[0] == "block" and body[1] is None):
+            body = ("block", None, f["ret"], (), body)
+        n = self.names.get(k) or ("main" if k == self.prog["main"] else "f%d" % k)
+        return "%s :: (%s)%s %s" % (n, ", ".join(ps), ret, self.block_body(body, 0, [], True))
+
     def source(self, print_ty):
         """print_ty: id(print expr) -> printer function name (filled by annotate_prints)."""
         self.print_ty = print_ty
-        out = [PRELUDE]
-        for sid, st in sorted(collect_structs(self.prog).items()):
-            out.append("S%d :: struct { %s };" % (sid, ", ".join("m%d: %s" % (i, self.ty(f)) for i, f in enumerate(st[2]))))
-        for k, f in enumerate(self.prog["funs"]):
-            ps = ["comptime T%d: type" % i for i in range(f["tparams"])]
-            ps += ["comptime c%d: %s" % (i, self.ty(t)) for i, t in enumerate(f["cparams"])]
-            ps += ["v%d: %s" % (x, self.ty(t)) for x, t in f["params"]]
-            ret = "" if f["ret"] == VOID else " -> %s" % self.ty(f["ret"])
-            body = f["body"]
-            if not (body[0] == "block" and body[1] is None):
-                body = ("block", None, f["ret"], (), body)
-            out.append("%s :: (%s)%s %s" % (self.fname(k), ", ".join(ps), ret, self.block_body(body, 0, [], True)))
+        out = [('core :: #mod("core");\n' if self.core_print else "") + PRELUDE]
+        out += self.decls()
+        for k in range(len(self.prog["funs"])):
+            out.append(self.fun_text(k))
+        out += ["%s :: %s;" % (n, t) for (_, t), n in self.aliases.items()]
         return "\n".join(out) + "\n"
+
+    def sources(self, print_ty, local):
+        """Two files: {"p.capy": functions in `local` (they see everything else as lib.X),
+        "lib.capy": prelude, type declarations and all other functions}."""
+        self.print_ty = print_ty
+        self.local = set(local)
+        self.cur_local = False
+        lib = [PRELUDE] + self.decls()
+        for k in range(len(self.prog["funs"])):
+            if k not in self.local:
+                lib.append(self.fun_text(k))
+        self.cur_local = True
+        main = ['lib :: #import("lib.capy");']
+        for k in range(len(self.prog["funs"])):
+            if k in self.local:
+                main.append(self.fun_text(k))
+        self.cur_local = False
+        lib += ["%s :: %s;" % (n, t) for (loc, t), n in self.aliases.items() if not loc]
+        main += ["%s :: %s;" % (n, t) for (loc, t), n in self.aliases.items() if loc]
+        return {"p.capy": "\n".join(main) + "\n", "lib.capy": "\n".join(lib) + "\n"}
 
 
 # ------------------------------------------------------------------ static types (for printers)
@@ -532,6 +747,14 @@ def type_of(prog, f, e, G, tenv=None):
         return e[1]
     if k == "field":
         return type_of(prog, f, e[1], G)[2][e[2]]
+    if k in ("inject", "switch"):
+        return e[1]
+    if k == "isvar":
+        return BOOL
+    if k == "unwrap":
+        return variants(e[3])[e[2]]
+    if k == "try":
+        return variants(type_of(prog, f, e[1], G))[1]
     return VOID
 
 
@@ -543,7 +766,7 @@ def annotate_prints(prog):
         k = e[0]
         if k == "print":
             t = type_of(prog, f, e[1], G)
-            res[id(e)] = "p_bool" if t == BOOL else ("p_T" if t[0] == "tvar" else "p_" + t[1])
+            res[id(e)] = "p_bool" if t == BOOL else ("p_T" if t[0] in ("tvar", "dist") else "p_" + t[1])
             walk(f, e[1], G)
         elif k == "block":
             G2 = list(G)
@@ -554,6 +777,13 @@ def annotate_prints(prog):
                 else:
                     walk(f, s, G2)
             walk(f, e[4], G2)
+        elif k == "switch":
+            walk(f, e[2], G)
+            vs = variants(e[6])
+            for i, a in enumerate(e[4]):
+                walk(f, a, [(e[3], vs[i])] + list(G))
+            if e[5] is not None:
+                walk(f, e[5], G)
         else:
             for x in parts(e)[1]:
                 walk(f, x, G)
@@ -562,8 +792,15 @@ def annotate_prints(prog):
     return res
 
 
-def pretty(prog, names=None, bare_literals=True, style=0):
-    return Printer(prog, names, bare_literals, style).source(annotate_prints(prog))
+def pretty_files(prog, local, names=None, style=0):
+    return Printer(prog, names, True, style).sources(annotate_prints(prog), local)
+
+
+def pretty(prog, names=None, bare_literals=True, style=0, core_print=False, inline_patterns=False, direct_variants=False):
+    pr = Printer(prog, names, bare_literals, style, core_print)
+    pr.inline_patterns = inline_patterns
+    pr.direct_variants = direct_variants
+    return pr.source(annotate_prints(prog))
 
 
 # ------------------------------------------------------------------ substitution (mirror of Model/Generics.v)
@@ -575,6 +812,12 @@ def subst_ty(ts, t):
         return ("struct", t[1], tuple(subst_ty(ts, f) for f in t[2]))
     if k == "tvar":
         return ts[t[1]] if t[1] < len(ts) else t
+    if k == "enum":
+        return ("enum", t[1], tuple(subst_ty(ts, f) for f in t[2]))
+    if k == "opt":
+        return ("opt", subst_ty(ts, t[1]))
+    if k == "err":
+        return ("err", subst_ty(ts, t[1]), subst_ty(ts, t[2]))
     return t
 
 
@@ -606,8 +849,15 @@ def subst_expr(ts, cs, e):
         return (k, e[1], subst_ty(ts, e[2]), tuple(S(s) for s in e[3]), S(e[4]))
     if k == "break":
         return (k, e[1], S(e[2]))
-    if k in ("return", "print"):
+    if k in ("return", "print", "defer", "try"):
         return (k, S(e[1]))
+    if k == "inject":
+        return (k, subst_ty(ts, e[1]), e[2], S(e[3]))
+    if k == "switch":
+        return (k, subst_ty(ts, e[1]), S(e[2]), e[3], tuple(S(a) for a in e[4]), None if e[5] is None else S(e[5]),
+                subst_ty(ts, e[6]))
+    if k in ("isvar", "unwrap"):
+        return (k, S(e[1]), e[2], subst_ty(ts, e[3]))
     if k == "call":
         cargs = tuple(("clit", subst_ty(ts, c[1]), c[2]) if c[0] == "clit"
                       else (("clit", cs[c[1]][0], cs[c[1]][1]) if c[1] < len(cs) else c) for c in e[3])
@@ -635,6 +885,7 @@ class Ctx:
         self.labels = []        # (l, is_loop, ty)
         self.iters = 1          # product of enclosing loop bounds
         self.hidden = set()     # variables that may not be mentioned right now
+        self.in_defer = False
 
     def push(self):
         return len(self.vars)
@@ -657,10 +908,13 @@ class Gen:
         self.nvar = 0
         self.nlab = 0
         self.structs = []
+        self.enums = []
         self.funs = []
         self.sigs = []          # (params tys, ret, recursive?)
         self.hist = {}
-        self.tvars = []         # comptime type parameters of the function being generated
+        self.tvars = []         # integer-like comptime type parameters of the function being generated
+        self.opaque = []        # comptime type parameters used opaquely (instantiated with structs / enums)
+        self.dists = []         # distinct integer types available as comptime type arguments
         self.cparams = []       # types of its comptime integer parameters
         self.gsigs = {}         # generic function index -> (tparams, cparams)
 
@@ -688,6 +942,46 @@ class Gen:
             fs = tuple(self.field_ty(1) for _ in range(k))
             self.structs.append(("struct", i + 1, fs))
 
+    def gen_enum_types(self):
+        if not self.o["sum_types"]:
+            return
+        for i in range(self.r.below(3)):
+            vs = []
+            for _ in range(self.r.range(2, 4)):
+                x = self.r.below(10)
+                if x < 3:
+                    vs.append(VOID)
+                elif x < 6:
+                    vs.append(self.int_ty(concrete=True))
+                elif x < 7:
+                    vs.append(BOOL)
+                elif x < 8 and self.structs:
+                    vs.append(self.r.choice(self.structs))
+                elif x < 9:
+                    vs.append(("arr", self.r.range(1, 3), self.int_ty(concrete=True)))
+                elif self.enums:
+                    vs.append(self.r.choice(self.enums))
+                else:
+                    vs.append(VOID)
+            self.enums.append(("enum", i + 1, tuple(vs)))
+
+    def sum_ty(self):
+        """A random enum / optional / error-union type (None when sum types are switched off)."""
+        if not self.o["sum_types"]:
+            return None
+        x = self.r.below(10)
+        if x < 4 and self.enums:
+            return self.r.choice(self.enums)
+        if x < 7:
+            t = self.field_ty(1) if self.r.chance(2, 3) else (self.r.choice(self.enums) if self.enums else self.int_ty(concrete=True))
+            return ("opt", t)
+        errs = self.enums + self.structs
+        if errs:
+            # the error type must not be "too similar" to the payload type: enums / structs vs scalars, arrays
+            pay = self.int_ty(concrete=True) if self.r.chance(2, 3) else self.r.choice([BOOL, ("arr", 2, self.int_ty(concrete=True))])
+            return ("err", self.r.choice(errs), pay)
+        return ("opt", self.int_ty(concrete=True))
+
     def field_ty(self, depth):
         x = self.r.below(10)
         if x < 6 or depth > 2:
@@ -699,6 +993,10 @@ class Gen:
         return self.int_ty()
 
     def any_ty(self, depth=0):
+        if self.o["sum_types"] and not self.tvars and self.r.chance(1, 7):
+            st = self.sum_ty()
+            if st:
+                return st
         x = self.r.below(12)
         if x < 7 or depth > 1:
             return self.int_ty()
@@ -720,7 +1018,7 @@ class Gen:
     def lit(self, t):
         lo, hi = int_range(t)
         if t[0] == "i" and INTS[t[1]][1] == 128:
-            lo, hi = max(lo, -(1 << 63) + 1), (1 << 63) - 1       # literals are at most i64::MAX
+            lo, hi = max(lo, -(1 << 63) + 1), (1 << 64) - 1       # literal tokens are at most u64::MAX (/repo deaaaeb)
         if t[0] == "i" and INTS[t[1]][1] == 64 and not INTS[t[1]][0]:
             hi = (1 << 64) - 1
         x = self.r.below(10)
@@ -807,8 +1105,8 @@ class Gen:
         res = []
         if t[0] == "tvar":
             # the instantiation may be wider and unsigned: only unsigned sources are free of the C08 defect
-            return [T(n) for n in self.int_names if not INTS[n][0]]
-        if INTS[t[1]][0]:
+            return [T(n) for n in self.int_names if not INTS[n][0] or self.o["cast_signed_to_wider_unsigned"]]
+        if INTS[t[1]][0] or self.o["cast_signed_to_wider_unsigned"]:
             res += list(self.tvars)          # any source may be cast to a signed type
         for n in self.int_names:
             s = T(n)
@@ -825,6 +1123,11 @@ class Gen:
         """Expression of type t.  pure: no calls / blocks (no side effects on variables or output)."""
         r = self.r
         k = t[0]
+        if t in self.opaque:
+            cs = self.paths(ctx, t)
+            if len(cs) >= 2 and depth < 3 and r.chance(1, 3):
+                return ("if", self.expr(ctx, BOOL, depth + 1, True), self.wrap(r.choice(cs), t), self.wrap(r.choice(cs), t))
+            return r.choice(cs)
         leaf = depth >= 4 or r.chance(1, 4)
         cands = self.paths(ctx, t) + [("cp", i) for i, ct in enumerate(self.cparams) if ct == t]
         if k == "tvar" or k == "i":
@@ -868,6 +1171,23 @@ class Gen:
                     return c
             if x < 84 and not pure and depth < 3:
                 return self.block_expr(ctx, t, depth, top)
+            if x < 91 and depth < 3 and self.o["sum_types"] and not self.tvars:
+                if r.chance(2, 3):
+                    sw = self.switch_expr(ctx, t, depth, pure, lambda: self.wrap(self.expr(ctx, t, depth + 2, pure), t))
+                    if sw:
+                        return sw
+                else:
+                    sc = self.sum_scrutinee(ctx, depth, True)
+                    if sc and sc[0][0] in ("var", "field", "index"):
+                        ks = [i for i, pt in enumerate(variants(sc[1])) if pt == t]
+                        if ks:
+                            kk = r.choice(ks)
+                            self.count("unwrap")
+                            u = ("unwrap", sc[0], kk, sc[1])
+                            if r.chance(1, 8):
+                                self.count("unguarded-unwrap")
+                                return u
+                            return ("if", ("isvar", sc[0], kk, sc[1]), self.wrap(u, t), self.wrap(self.expr(ctx, t, depth + 2, pure), t))
             if cands and r.chance(3, 4):
                 return r.choice(cands)
             return self.lit(t)
@@ -876,7 +1196,7 @@ class Gen:
                 if cands and r.chance(1, 2):
                     return r.choice(cands)
                 if depth >= 4:
-                    ivs = [(x, vt) for x, vt in self.visible(ctx) if vt[0] in ("i", "tvar")]
+                    ivs = [(x, vt) for x, vt in self.visible(ctx) if vt[0] in ("i", "tvar") and vt not in self.opaque]
                     if ivs:
                         x, vt = r.choice(ivs)
                         return ("cmp", r.choice(list(CMPOPS)), ("var", x), self.lit(vt))
@@ -891,6 +1211,11 @@ class Gen:
                 return (r.choice(["land", "lor"]), self.expr(ctx, BOOL, depth + 1, pure), self.expr(ctx, BOOL, depth + 1, pure))
             if x < 82:
                 return ("un", "bnot", self.expr(ctx, BOOL, depth + 1, pure))
+            if x < 90 and self.o["sum_types"] and not self.tvars and depth < 3:
+                sc = self.sum_scrutinee(ctx, depth, pure)
+                if sc:
+                    self.count("is_variant")
+                    return ("isvar", sc[0], r.below(len(variants(sc[1]))), sc[1])
             if x < 88 and not pure:
                 c = self.call(ctx, t, depth)
                 if c:
@@ -921,16 +1246,90 @@ class Gen:
                     return c
             self.count("struct-literal")
             return ("struct", t, tuple(self.expr(ctx, ft, depth + 1, pure) for ft in t[2]))
+        if k == "void":
+            return ("unit",)
+        if k in ("enum", "opt", "err"):
+            x = r.below(100)
+            if cands and x < 35:
+                return r.choice(cands)
+            if x < 45 and not pure:
+                c = self.call(ctx, t, depth)
+                if c:
+                    return c
+            if x < 52 and depth < 3:
+                return ("if", self.expr(ctx, BOOL, depth + 1, pure), self.wrap(self.expr(ctx, t, depth + 2, pure), t),
+                        self.wrap(self.expr(ctx, t, depth + 2, pure), t))
+            vs = variants(t)
+            kk = r.below(len(vs))
+            self.count("inject:" + k)
+            return ("inject", t, kk, self.expr(ctx, vs[kk], depth + 1, pure))
         raise ValueError(t)
+
+    def sum_scrutinee(self, ctx, depth, pure):
+        """(expression, its sum type) to switch on / test: a visible variable or path, else a fresh value."""
+        r = self.r
+        found = []
+        for x, t in self.visible(ctx):
+            self._sum_paths(("var", x), t, found, 0)
+        if found and r.chance(4, 5):
+            return r.choice(found)
+        st = self.sum_ty()
+        if st is None or depth >= 3:
+            return r.choice(found) if found else None
+        return (self.expr(ctx, st, depth + 1, pure), st)
+
+    def _sum_paths(self, e, t, out, depth):
+        if t[0] in ("enum", "opt", "err"):
+            out.append((e, t))
+        elif depth < 2 and t[0] == "arr":
+            self._sum_paths(("index", e, ("int", USIZE, self.r.below(t[1]))), t[2], out, depth + 1)
+        elif depth < 2 and t[0] == "struct":
+            for k, ft in enumerate(t[2]):
+                self._sum_paths(("field", e, k), ft, out, depth + 1)
+
+    def switch_expr(self, ctx, t, depth, pure, mk_arm):
+        sc = self.sum_scrutinee(ctx, depth, pure)
+        if sc is None:
+            return None
+        e, st = sc
+        vs = variants(st)
+        n = len(vs)
+        m = n if self.r.chance(1, 2) else self.r.range(0, n - 1)
+        x = self.fresh()
+        arms = []
+        for i in range(m):
+            ctx.vars.append((x, vs[i], False, True))
+            arms.append(mk_arm())
+            ctx.vars.pop()
+        dflt = mk_arm() if (m < n or self.r.chance(1, 6)) else None
+        self.count("switch:" + st[0])
+        return ("switch", t, e, x, tuple(arms), dflt, st)
+
+    def dist_arg(self, ctx, pt):
+        """Argument of type pt, where distinct integer types may occur (generated at the base type and cast)."""
+        def has_dist(t):
+            return t[0] == "dist" or (t[0] == "arr" and has_dist(t[2])) or (t[0] == "struct" and any(has_dist(f) for f in t[2]))
+        if not has_dist(pt):
+            return self.expr(ctx, pt, 2, pure=True)
+        if pt[0] == "dist":
+            return ("cast", pt, self.expr(ctx, ("i", pt[2]), 3, pure=True))
+        if pt[0] == "arr":
+            return ("arr", pt[2], tuple(self.dist_arg(ctx, pt[2]) for _ in range(pt[1])))
+        raise ValueError(pt)
 
     def wrap(self, e, t):
         return e if e[0] == "block" and e[1] is None else ("block", None, t, (), e)
 
-    def comptime_args(self, f):
+    def comptime_args(self, f, allow_dist=False):
         """Random comptime arguments for generic function f: (targs, cargs)."""
-        ntp, cps = self.gsigs[f]
+        ntp, cps, nop = self.gsigs[f]
         pool = [T(n) for n in self.int_names if INTS[n][1] < 128] + list(self.tvars)
-        targs = tuple(self.r.choice(pool) for _ in range(ntp))
+        if self.dists and allow_dist:
+            pool += self.dists + self.dists
+        opool = (self.structs + self.enums) or [T("i32")]
+        if self.opaque:
+            opool = list(self.opaque)
+        targs = tuple(self.r.choice(pool) for _ in range(ntp - nop)) + tuple(self.r.choice(opool) for _ in range(nop))
         cargs = []
         for ct in cps:
             ct2 = subst_ty(list(targs), ct)
@@ -1018,6 +1417,44 @@ class Gen:
         x = r.below(100)
         sd = depth
         depth = min(depth, 2)
+        y = r.below(100)
+        if y < 7 and self.o["defers"]:
+            return [self.defer_stmt(ctx, depth)]
+        if y < 13 and self.o["sum_types"] and not self.tvars and sd < 4:
+            mark = ctx.push()
+
+            def arm():
+                m2 = ctx.push()
+                ss = self.stmts(ctx, sd + 1, r.range(1, 2))
+                ctx.pop(m2)
+                return ("block", None, VOID, tuple(ss), ("unit",))
+            sw = self.switch_expr(ctx, VOID, depth, False, arm)
+            ctx.pop(mark)
+            if sw:
+                return [sw]
+        if y < 19 and self.o["sum_types"] and ctx.ret[0] in ("opt", "err") and not ctx.in_defer:
+            # y := e.try  (returns nil / the error from the function when e is not a success)
+            want = [t for _, t in self.visible(ctx)
+                    if t[0] == ctx.ret[0] and (t[0] == "opt" or t[1] == ctx.ret[1]) and variants(t)[1] != VOID]
+            if want and r.chance(2, 3):
+                st = r.choice(want)
+            elif ctx.ret[0] == "opt":
+                st = ("opt", self.int_ty(concrete=True))
+            else:
+                st = ("err", ctx.ret[1], self.int_ty(concrete=True))
+            e = self.expr(ctx, st, depth + 1)
+            if e[0] not in ("var", "field", "index", "call"):
+                tmp = self.fresh()
+                pre = [("let", tmp, st, False, e)]
+                ctx.vars.append((tmp, st, False, False))
+                e = ("var", tmp)
+            else:
+                pre = []
+            v = self.fresh()
+            pt = variants(st)[1]
+            ctx.vars.append((v, pt, True, False))
+            self.count("try")
+            return pre + [("let", v, pt, True, ("try", e))]
         if x < 22:
             t = self.any_ty()
             e = self.expr(ctx, t, depth + 1, top=True)
@@ -1087,6 +1524,27 @@ class Gen:
             return [c]
         return [("print", self.expr(ctx, self.int_ty(concrete=True), depth + 1))]
 
+    def defer_stmt(self, ctx, depth):
+        """defer of a print and / or an assignment (no jumps inside a defer)."""
+        r = self.r
+        self.count("defer")
+        ctx.in_defer = True
+        body = []
+        if r.chance(1, 2):
+            ts = [t for _, t, m, p in ctx.vars if m and not p and t[0] in ("i", "bool")]
+            if ts:
+                want = r.choice(ts)
+                ps = self.paths(ctx, want, mutable_only=True)
+                ps = [q for q in ps if q[0] == "var"]
+                if ps:
+                    body.append(("assign", r.choice(ps), self.expr(ctx, want, depth + 1, pure=True)))
+        t = self.int_ty(concrete=True) if r.chance(4, 5) else BOOL
+        body.append(("print", self.expr(ctx, t, depth + 1, pure=True)))
+        ctx.in_defer = False
+        if len(body) == 1 and r.chance(2, 3):
+            return ("defer", body[0])
+        return ("defer", ("block", None, VOID, tuple(body), ("unit",)))
+
     def subty(self, t):
         while t[0] in ("arr", "struct") and self.r.chance(2, 3):
             t = t[2] if t[0] == "arr" else self.r.choice(t[2])
@@ -1151,10 +1609,12 @@ class Gen:
     def function(self, fidx, is_main, generic=None):
         """generic = (number of type parameters, [types of comptime integer parameters]) or None."""
         r = self.r
-        self.tvars = [("tvar", i) for i in range(generic[0])] if generic else []
+        nop = generic[2] if generic and len(generic) > 2 else 0
+        self.tvars = [("tvar", i) for i in range(generic[0] - nop)] if generic else []
+        self.opaque = [("tvar", i) for i in range(generic[0] - nop, generic[0])] if generic else []
         self.cparams = list(generic[1]) if generic else []
         if generic:
-            self.gsigs[fidx] = (generic[0], list(generic[1]))
+            self.gsigs[fidx] = (generic[0], list(generic[1]), nop)
         if is_main:
             ret = r.choice([VOID, T("i32"), T("u8"), T("i64"), T("u32"), T("i16"), T("usize"), T("i8")])
             if ret != VOID and ret[1] not in self.int_names:
@@ -1169,6 +1629,12 @@ class Gen:
                 params.append((self.fresh(), T("u8")))
             for _ in range(r.range(0 if rec else 1, 3)):
                 params.append((self.fresh(), self.sig_ty()))
+            for ot in self.opaque:
+                params.append((self.fresh(), ot))
+                if r.chance(1, 2):
+                    params.append((self.fresh(), ("arr", 2, ot)))
+                if r.chance(1, 2):
+                    ret = ot
         ctx = Ctx(fidx, ret)
         for x, t in params:
             ctx.vars.append((x, t, False, rec and x == params[0][0]))
@@ -1181,6 +1647,24 @@ class Gen:
             ss.append(("let", v, t, True, self.expr(ctx, t, 2)))
             ctx.vars.append((v, t, True, False))
         ss += self.stmts(ctx, 1, n)
+        if is_main:
+            # make sure the helper functions are executed: call each of them from main (most of the time)
+            for f in range(fidx):
+                if f in self.gsigs or not r.chance(3, 4):
+                    continue
+                ps, fret, frec = self.sigs[f]
+                args = []
+                for j, pt in enumerate(ps):
+                    args.append(("int", T("u8"), r.range(0, 5)) if frec and j == 0 else self.expr(ctx, pt, 2, pure=True))
+                cexp = ("call", f, (), (), tuple(args))
+                self.count("call-from-main")
+                if fret == VOID:
+                    ss.append(cexp)
+                else:
+                    v = self.fresh()
+                    ss.append(("let", v, fret, False, cexp))
+                    ctx.vars.append((v, fret, False, False))
+                    ss += self.use(ctx, v, fret)
         live = []
         seen = set()
         for x, t, m, p in reversed(ctx.vars):
@@ -1201,9 +1685,10 @@ class Gen:
             inner = ("block", None, VOID, (("let", v, ret, False, callr),) + tuple(self.use(ctx, v, ret)), ("unit",))
             ss.append(("if", ("cmp", "gt", ("var", d), ("int", T("u8"), 0)), inner, ("unit",)))
         tail = ("unit",) if ret == VOID else self.expr(ctx, ret, 1)
-        f = {"tparams": len(self.tvars), "cparams": list(self.cparams), "params": params, "ret": ret,
+        f = {"tparams": len(self.tvars) + len(self.opaque), "cparams": list(self.cparams), "params": params, "ret": ret,
              "body": ("block", None, ret, tuple(ss), tail)}
         self.tvars = []
+        self.opaque = []
         self.cparams = []
         return f
 
@@ -1214,8 +1699,17 @@ class Gen:
         return [("print", ("cast", T("i64"), e) if lt[0] == "tvar" else e) for e, lt in leaves[:3]]
 
     def _leaves(self, e, t, out):
+        if t in self.opaque:
+            return
         if t[0] == "i" or t[0] == "bool" or t[0] == "tvar":
             out.append((e, t))
+        elif t[0] == "dist":
+            out.append((e, ("tvar", 0)))          # printed through a cast to i64, like type parameters
+        elif t[0] in ("enum", "opt", "err"):
+            # print which variant it is
+            n = len(variants(t))
+            x = self.fresh()
+            out.append((("switch", T("u8"), e, x, tuple(("int", T("u8"), 10 + i) for i in range(n)), None, t), T("u8")))
         elif t[0] == "arr":
             self._leaves(("index", e, ("int", USIZE, self.r.below(t[1]))), t[2], out)
         elif t[0] == "struct":
@@ -1224,6 +1718,7 @@ class Gen:
 
     def program(self):
         self.gen_struct_types()
+        self.gen_enum_types()
         nf = self.r.range(0, self.max_funs)
         funs = []
         for k in range(nf):
@@ -1240,21 +1735,26 @@ def generic_programs(rng, opts=None):
     g = Gen(rng, opts, int_names=[n for n in INT_NAMES if INTS[n][1] < 128], max_funs=2, max_stmts=4)
     r = g.r
     g.gen_struct_types()
+    if not g.structs:
+        g.structs.append(("struct", 1, (T("u8"), T("i64"))))
+    g.gen_enum_types()
+    g.dists = [("dist", i + 1, r.choice(["i32", "u8", "i64", "u16", "usize", "i8"])) for i in range(r.range(1, 2))]
     funs = []
     for k in range(r.range(0, 1)):
         funs.append(g.function(len(funs), False))
     ngen = r.range(1, 2)
     for k in range(ngen):
         ntp = r.range(0, 2)
+        nop = 1 if (ntp >= 1 and r.chance(1, 2)) else 0      # the last type parameter is used opaquely
         ncp = r.range(0 if ntp else 1, 3 - ntp)
         cps = [(("tvar", r.below(ntp)) if ntp and r.chance(1, 3) and g.o["dependent_comptime_param_types"]
                 else T(r.choice(["u8", "i32", "usize", "i16", "u64"]))) for _ in range(ncp)]
-        funs.append(g.function(len(funs), False, generic=(ntp, cps)))
+        funs.append(g.function(len(funs), False, generic=(ntp, cps, nop)))
     gi = len(funs) - 1
     # instantiations
     insts = []
     for _ in range(r.range(1, 3)):
-        insts.append(g.comptime_args(gi))
+        insts.append(g.comptime_args(gi, allow_dist=True))
     order = [r.below(len(insts)) for _ in range(r.range(len(insts), 4))]
     for j in range(len(insts)):
         if j not in order:
@@ -1269,7 +1769,7 @@ def generic_programs(rng, opts=None):
         args = []
         for q, pt in enumerate(ps):
             pt = subst_ty(list(ta), pt)
-            args.append(("int", T("u8"), r.range(0, 4)) if rec and q == 0 else g.expr(ctx, pt, 2, pure=True))
+            args.append(("int", T("u8"), r.range(0, 4)) if rec and q == 0 else g.dist_arg(ctx, pt))
         v = g.fresh()
         rt = subst_ty(list(ta), ret)
         calls.append((len(ss), j))
@@ -1308,16 +1808,16 @@ def shrink_candidates(prog):
         p["funs"][fk]["body"] = newbody
         return p
 
-    def variants(e):
+    def alts(e):
         """yield alternative expressions for e (one change somewhere inside)."""
         k = e[0]
         if k == "block":
             for i in range(len(e[3])):
                 yield (k, e[1], e[2], e[3][:i] + e[3][i + 1:], e[4])
             for i, s in enumerate(e[3]):
-                for v in variants(s):
+                for v in alts(s):
                     yield (k, e[1], e[2], e[3][:i] + (v,) + e[3][i + 1:], e[4])
-            for v in variants(e[4]):
+            for v in alts(e[4]):
                 yield (k, e[1], e[2], e[3], v)
             if not e[3] and e[1] is None:
                 yield e[4]
@@ -1325,55 +1825,71 @@ def shrink_candidates(prog):
             yield e[2]
             yield e[3]
             for j in (1, 2, 3):
-                for v in variants(e[j]):
+                for v in alts(e[j]):
                     yield e[:j] + (v,) + e[j + 1:]
         elif k in ("bin", "cmp"):
             yield e[2]
             yield e[3]
             for j in (2, 3):
-                for v in variants(e[j]):
+                for v in alts(e[j]):
                     yield e[:j] + (v,) + e[j + 1:]
         elif k in ("un", "cast"):
             yield e[2]
-            for v in variants(e[2]):
+            for v in alts(e[2]):
                 yield (k, e[1], v)
         elif k in ("land", "lor"):
             yield e[1]
             yield e[2]
         elif k in ("while",):
-            for v in variants(e[3]):
+            for v in alts(e[3]):
                 yield (k, e[1], e[2], v)
         elif k == "loop":
-            for v in variants(e[2]):
+            for v in alts(e[2]):
                 yield (k, e[1], v)
         elif k == "let":
-            for v in variants(e[4]):
+            for v in alts(e[4]):
                 yield (k, e[1], e[2], e[3], v)
         elif k == "assign":
-            for v in variants(e[2]):
+            for v in alts(e[2]):
                 yield (k, e[1], v)
-        elif k in ("print", "return"):
-            for v in variants(e[1]):
+        elif k in ("print", "return", "defer", "try"):
+            for v in alts(e[1]):
                 yield (k, v)
+        elif k == "inject":
+            for v in alts(e[3]):
+                yield (k, e[1], e[2], v)
+        elif k == "switch":
+            for v in alts(e[2]):
+                yield e[:2] + (v,) + e[3:]
+            for i, a in enumerate(e[4]):
+                for v in alts(a):
+                    yield e[:4] + (e[4][:i] + (v,) + e[4][i + 1:],) + e[5:]
+            if e[5] is not None:
+                yield e[5]
+                for v in alts(e[5]):
+                    yield e[:5] + (v,) + e[6:]
+        elif k in ("isvar", "unwrap"):
+            for v in alts(e[1]):
+                yield (k, v, e[2], e[3])
         elif k == "call":
             for i, a in enumerate(e[4]):
-                for v in variants(a):
+                for v in alts(a):
                     yield (k, e[1], e[2], e[3], e[4][:i] + (v,) + e[4][i + 1:])
         elif k in ("arr", "struct"):
             for i, a in enumerate(e[2]):
-                for v in variants(a):
+                for v in alts(a):
                     yield (k, e[1], e[2][:i] + (v,) + e[2][i + 1:])
         elif k == "index":
-            for v in variants(e[1]):
+            for v in alts(e[1]):
                 yield (k, v, e[2])
-            for v in variants(e[2]):
+            for v in alts(e[2]):
                 yield (k, e[1], v)
         elif k == "field":
-            for v in variants(e[1]):
+            for v in alts(e[1]):
                 yield (k, v, e[2])
 
     for fk, f in enumerate(prog["funs"]):
-        for v in variants(f["body"]):
+        for v in alts(f["body"]):
             if v[0] != "block" or v[1] is not None:
                 v = ("block", None, f["ret"], (), v)
             out.append(rebuild(fk, v))
@@ -1401,12 +1917,20 @@ def strip_fault_location(stdout):
 
 
 def build_and_run(capy, src, name="p", build_timeout=180, run_timeout=10):
+    """src: source text of <name>.capy, or a dict {file name: text} containing "<name>.capy"."""
     """Compile `src` with the real capy in a scratch directory and run the executable.
     -> dict(build_rc, build_out, rc, stdout) (rc None when not built; 124 = timeout)."""
     from . import common as C
     with C.scratch("verif-capy-") as d:
-        open(os.path.join(d, name + ".capy"), "w").write(src)
+        if isinstance(src, dict):
+            for fn, txt in src.items():
+                open(os.path.join(d, fn), "w").write(txt)
+        else:
+            open(os.path.join(d, name + ".capy"), "w").write(src)
         rc, out = C.run([capy, "build", name + ".capy", "--mod-dir", C.REPO], cwd=d, timeout=build_timeout)
+        if rc == 124:
+            # same reasoning as for the run timeout below: believe a compiler hang only after a longer second attempt
+            rc, out = C.run([capy, "build", name + ".capy", "--mod-dir", C.REPO], cwd=d, timeout=build_timeout * 3)
         if rc == 124:
             return {"build_rc": 124, "build_out": "TIMEOUT: the compiler did not finish within %d s" % build_timeout,
                     "rc": None, "stdout": ""}
@@ -1418,15 +1942,19 @@ def build_and_run(capy, src, name="p", build_timeout=180, run_timeout=10):
             errs = re.findall(r"^(?:error|Error)[^\n]*", out, re.M)
             head += "\n".join(errs[:5]) + ("\n" if errs else "")
             return {"build_rc": rc, "build_out": head + out[-1500:], "rc": None, "stdout": ""}
-        try:
-            p = subprocess.run([exe], stdout=subprocess.PIPE, stderr=subprocess.DEVNULL, timeout=run_timeout,
-                               stdin=subprocess.DEVNULL)
-            return {"build_rc": 0, "build_out": "", "rc": p.returncode, "stdout": p.stdout.decode("latin-1")}
-        except subprocess.TimeoutExpired as e:
-            return {"build_rc": 0, "build_out": "", "rc": 124, "stdout": (e.stdout or b"").decode("latin-1")}
+        # generated programs finish in milliseconds; on a loaded machine even that can exceed the timeout,
+        # so a timeout is only believed after a second, much longer attempt
+        for attempt, tmo in enumerate((run_timeout, run_timeout * 12)):
+            try:
+                p = subprocess.run([exe], stdout=subprocess.PIPE, stderr=subprocess.DEVNULL, timeout=tmo,
+                                   stdin=subprocess.DEVNULL)
+                return {"build_rc": 0, "build_out": "", "rc": p.returncode, "stdout": p.stdout.decode("latin-1")}
+            except subprocess.TimeoutExpired as e:
+                last = e
+        return {"build_rc": 0, "build_out": "", "rc": 124, "timeout": True, "stdout": (last.stdout or b"").decode("latin-1")}
 
 
-def compare(prog, outcome, impl, names=None):
+def compare(prog, outcome, impl, names=None, core_print=False):
     """None when the executable behaves as eval_prog prescribes, else (kind, detail)."""
     if impl["rc"] is None:
         if impl["build_out"].startswith("TIMEOUT"):
@@ -1434,9 +1962,9 @@ def compare(prog, outcome, impl, names=None):
         if "panicked" in impl["build_out"] or impl["build_out"].startswith("PANIC"):
             return ("compiler-panic", impl["build_out"][:600])
         return ("rejected", impl["build_out"][:600])
-    if impl["rc"] == 124:
+    if impl.get("timeout"):
         return ("hang", "executable did not finish")
-    want = render_events(outcome["events"])
+    want = render_events(outcome["events"], core_print)
     if outcome["kind"] == "DONE":
         if impl["stdout"] != want:
             return ("wrong-output", "stdout differs")
@@ -1445,7 +1973,9 @@ def compare(prog, outcome, impl, names=None):
         return None
     if outcome["kind"] == "FAULT":
         m = FAULT_RE.search(impl["stdout"])
-        if not m or impl["stdout"][:m.start()] != want or m.group(2) != FAULT_TEXT.get(outcome["fault_kind"]):
+        msg_ok = bool(m) and (m.group(2) == FAULT_TEXT[0] if outcome["fault_kind"] == 0 else
+                              re.fullmatch(r"called #unwrap\(.*\) but the variant was different", m.group(2), re.S) is not None)
+        if not m or impl["stdout"][:m.start()] != want or not msg_ok:
             return ("wrong-output", "fault message or the output before it differs")
         fname = (names or {}).get(outcome["fault_fn"]) or ("main" if outcome["fault_fn"] == prog["main"] else "f%d" % outcome["fault_fn"])
         if not re.sub(r"<\d+>\Z", "", m.group(1)).endswith("#" + fname):
